@@ -58,8 +58,32 @@ struct Field<const P: u128> {
 }
 
 impl<const P: u128> Field<P> {
-    fn new(n: usize) -> Field<P> {
-        let map = create_semantic_hash_map::<P>(n);
+    /// `special` = None: the library's public weight map; Some(seed): a caller-made map that is just as valid
+    /// (low + high = 1 in the field for every variable) but built from the values arithmetic shortcuts get wrong:
+    /// 0 and 1, p-1 and 2, the two halves (p+1)/2, 3 and p-2, and a few random pairs
+    fn new(n: usize, special: Option<u64>) -> Field<P> {
+        let map = match special {
+            None => create_semantic_hash_map::<P>(n),
+            Some(seed) => {
+                let mut r = crate::rng::Rng::new(seed ^ (P as u64));
+                let mut m = std::collections::HashMap::new();
+                for v in 0..n {
+                    let lo: u128 = match r.below(8) {
+                        0 => 0,
+                        1 => 1,
+                        2 => P - 1,
+                        3 => 2,
+                        4 => (P + 1) / 2,
+                        5 => 3,
+                        6 => P - 2,
+                        _ => (r.next() as u128) % P,
+                    };
+                    let hi = (P + 1 - lo) % P;
+                    m.insert(VarLabel::new(v as u64), (FiniteField::<P>::new(lo), FiniteField::<P>::new(hi)));
+                }
+                WmcParams::new(m)
+            }
+        };
         let mut w = Vec::with_capacity(1 << n);
         for m in 0..(1u32 << n) {
             let mut x: u128 = 1;
@@ -199,9 +223,13 @@ fn run(plan: &Plan, ctx: &mut Ctx) -> R {
     }
     ctx.cur_prop = "C11";
     let n = plan.get("nvars").clamp(1, 6) as usize;
-    let f_tiny: Field<U32_TINY> = Field::new(n);
-    let f_small: Field<U32_SMALL> = Field::new(n);
-    let f_large: Field<U64_LARGEST> = Field::new(n);
+    // one run in four hashes under caller-made weight maps (fixed for the whole run) instead of the library's
+    let special = if plan.get_or("special_map", 0) != 0 { Some(plan.get_or("map_seed", 1) as u64) } else { None };
+    let f_tiny: Field<U32_TINY> = Field::new(n, special);
+    let f_small: Field<U32_SMALL> = Field::new(n, special);
+    let f_large: Field<U64_LARGEST> = Field::new(n, special);
+    // the hash-identified builders memoise under their own (the library's) map: their cached hashes are compared under that one
+    let lib_large: Field<U64_LARGEST> = Field::new(n, None);
 
     let order_of = |idx: u64| {
         let perm = perm_from_index(n, idx);
@@ -409,16 +437,16 @@ fn run(plan: &Plan, ctx: &mut Ctx) -> R {
                     ("uncompressed SDD", c4, ws::walk(p_su[x], &mut BTreeMap::new())),
                     ("hash-identified SDD", c5, ws::walk(p_se[x], &mut BTreeMap::new())),
                 ] {
-                    let w = f_large.defsum(t);
+                    let w = if name == "hash-identified SDD" { lib_large.defsum(t) } else { f_large.defsum(t) };
                     ctx.check("C11", "cached-hash-equals-recomputed", c == w, || format!("{name} h{x}: cached_semantic_hash = {c}, recomputed from its function = {w} (model {want})"))?;
                 }
                 if ntd > 0 {
                     let y = resolve(op.a[1], ntd);
                     for (name, c, t) in [
                         ("top-down diagram (standard store)", t_std[y].cached_semantic_hash(td_std.order(), &f_large.map).value(), wb::walk_raw(t_std[y], &mut BTreeMap::new())),
-                        ("top-down diagram (hash-identified store)", t_sem[y].cached_semantic_hash(td_sem.order(), &f_large.map).value(), wb::walk_raw(t_sem[y], &mut BTreeMap::new())),
+                        ("top-down diagram (hash-identified store)", t_sem[y].cached_semantic_hash(td_sem.order(), &lib_large.map).value(), wb::walk_raw(t_sem[y], &mut BTreeMap::new())),
                     ] {
-                        let w = f_large.defsum(t);
+                        let w = if name.contains("hash-identified") { lib_large.defsum(t) } else { f_large.defsum(t) };
                         ctx.check("C11", "cached-hash-equals-recomputed", c == w, || format!("{name} t{y}: cached_semantic_hash = {c}, recomputed from its function = {w}"))?;
                     }
                 }
@@ -438,7 +466,7 @@ fn run(plan: &Plan, ctx: &mut Ctx) -> R {
                 let nd = nodes[op.a[0].unsigned_abs() as usize % nodes.len()];
                 if flag {
                     // make sure the original has its hash memoised before it is copied
-                    let _ = BddPtr::Reg(nd).cached_semantic_hash(td_sem.order(), &f_large.map);
+                    let _ = BddPtr::Reg(nd).cached_semantic_hash(td_sem.order(), &lib_large.map);
                 }
                 // the copy with its children swapped decides the same variable the other way round
                 let mut c = nd.clone();
@@ -453,8 +481,8 @@ fn run(plan: &Plan, ctx: &mut Ctx) -> R {
                     format!("get_or_insert(copy of a stored node with its children swapped) returned a diagram denoting {}, the node handed in denotes {}", tt::show(got), tt::show(want))
                 })?;
                 f_large.check(ctx, &r, got, "top-down diagram (hash-identified store, via get_or_insert)")?;
-                let ch = r.cached_semantic_hash(td_sem.order(), &f_large.map).value();
-                ctx.check("C11", "cached-hash-equals-recomputed", ch == f_large.defsum(got), || format!("node returned by get_or_insert: cached_semantic_hash = {ch}, recomputed from its function = {}", f_large.defsum(got)))?;
+                let ch = r.cached_semantic_hash(td_sem.order(), &lib_large.map).value();
+                ctx.check("C11", "cached-hash-equals-recomputed", ch == lib_large.defsum(got), || format!("node returned by get_or_insert: cached_semantic_hash = {ch}, recomputed from its function = {}", lib_large.defsum(got)))?;
             }
             T_COMPILE | T_NEG | T_COND => {
                 let x = if ntd > 0 { resolve(op.a[0], ntd) } else { 0 };
@@ -495,7 +523,7 @@ fn run(plan: &Plan, ctx: &mut Ctx) -> R {
         let r2 = p_b2[x].semantic_hash(&f_large.map).value();
         let r3 = p_sc[x].semantic_hash(&f_large.map).value();
         let r4 = p_su[x].semantic_hash(&f_large.map).value();
-        let r5 = p_se[x].semantic_hash(&f_large.map).value();
+        let r5 = p_se[x].semantic_hash(&lib_large.map).value();
         for (name, c, r) in [("BDD order 1", c1, r1), ("BDD order 2", c2, r2), ("compressed SDD", c3, r3), ("uncompressed SDD", c4, r4), ("hash-identified SDD", c5, r5)] {
             ctx.check("C11", "cached-hash-equals-recomputed", c == r, || format!("{name} h{x}: cached_semantic_hash = {c} but semantic_hash recomputes {r}"))?;
         }
@@ -503,7 +531,7 @@ fn run(plan: &Plan, ctx: &mut Ctx) -> R {
     for y in 0..t_model.len() {
         for (name, c, r) in [
             ("top-down diagram (standard store)", t_std[y].cached_semantic_hash(td_std.order(), &f_large.map).value(), t_std[y].semantic_hash(&f_large.map).value()),
-            ("top-down diagram (hash-identified store)", t_sem[y].cached_semantic_hash(td_sem.order(), &f_large.map).value(), t_sem[y].semantic_hash(&f_large.map).value()),
+            ("top-down diagram (hash-identified store)", t_sem[y].cached_semantic_hash(td_sem.order(), &lib_large.map).value(), t_sem[y].semantic_hash(&lib_large.map).value()),
         ] {
             ctx.check("C11", "cached-hash-equals-recomputed", c == r, || format!("{name} t{y}: cached_semantic_hash = {c} but semantic_hash recomputes {r}"))?;
         }
@@ -573,6 +601,8 @@ impl World for SemHashWorld {
         cfg.insert("vt_seed".into(), (c.next() >> 2) as i64);
         cfg.insert("sem_compress".into(), c.below(2) as i64);
         cfg.insert("table_cap".into(), *c.pick(&[0i64, 1, 2, 3, 4, 8, 16, 64, 64]));
+        cfg.insert("special_map".into(), (c.below(4) == 0) as i64);
+        cfg.insert("map_seed".into(), (c.next() >> 2) as i64);
         cfg.insert("place_off".into(), (p.below(4096) * 16) as i64);
         cfg.insert("place_pad_every".into(), p.below(5) as i64);
         cfg.insert("place_pad_bytes".into(), (p.below(8) * 16) as i64);
